@@ -71,6 +71,9 @@ pub fn crash_child(args: &[String]) -> i32 {
                 }
             }
             Op::Restore { .. } => {}
+            Op::Cleanup => {
+                let _ = store.cleanup_expired();
+            }
             Op::Checkpoint if i != last => match store.checkpoint(format!("cp{}", ncp)) {
                 Ok(id) => {
                     ncp += 1;
